@@ -502,7 +502,10 @@ func vh_resp_prepared() {
 	var pk []uint16
 	if ver >= 4 {
 		for i := 0; i < vBound("pk"); i++ {
-			pk = append(pk, vU16("pki"))
+			// well-formed: a partition key index names one of the bind markers the frame describes
+			x := vU16("pki")
+			vAssume(int(x) < req.ncols)
+			pk = append(pk, x)
 		}
 	}
 	e := &vEnc{}
